@@ -356,6 +356,9 @@ func (r *Runner) runPath(solver *Solver, base *baseState, pkg *ssa.Package, spec
 			switch e := rec.(type) {
 			case pathEnd:
 				res.End, res.Msg = e.Kind, e.Msg
+				if e.Kind == EndUnsupported && os.Getenv("VERIF_UNSUP_STACK") != "" {
+					res.Msg += fmt.Sprintf(" at %v", in.stackTrace())
+				}
 			case *GoPanic:
 				// uncaught panic of the program under test
 				res.End, res.Msg = EndViolation, "panic: "+e.Msg
